@@ -178,42 +178,67 @@ def _must_assign(ctx: Ctx, f: Func, self_cls: Class, memo: Dict, depth: int = 0,
 
     # forward must-analysis (a node that calls a never-returning callee has no normal successor state): IN[n] = intersection of OUT[pred]; OUT = IN | gen
     order = cfg.live
-    OUT: Dict[Node, Optional[Set[str]]] = {n: None for n in order}
-    changed = True
     gens = {n: gen(n) for n in order}
-    it = 0
-    while changed and it < 50:
-        changed = False
-        it += 1
-        for n in order:
-            preds = []
-            for lab, p in n.pred:
-                if lab == "exc":
-                    continue
-                if symenv and p.kind == "cond" and lab in ("T", "F"):
-                    from ..fold import known as _known
 
-                    v = ctx.folder.fold(p.ast, f.module, dict(symenv))
-                    if _known(v) and bool(v) != (lab == "T"):
-                        continue  # infeasible edge for this platform
-                preds.append(p)
-            ins: Optional[Set[str]] = None
-            for p in preds:
-                if OUT.get(p) is None:
+    def solve(fixed: Dict[str, bool]):
+        OUT: Dict[Node, Optional[Set[str]]] = {n: None for n in order}
+        changed = True
+        it = 0
+        while changed and it < 50:
+            changed = False
+            it += 1
+            for n in order:
+                preds = []
+                for lab, p in n.pred:
+                    if lab == "exc":
+                        continue
+                    if p.kind == "cond" and lab in ("T", "F") and isinstance(p.ast, ast.Name) and p.ast.id in fixed and fixed[p.ast.id] != (lab == "T"):
+                        continue  # this case fixes the local the other way
+                    if symenv and p.kind == "cond" and lab in ("T", "F"):
+                        from ..fold import known as _known
+
+                        v = ctx.folder.fold(p.ast, f.module, dict(symenv))
+                        if _known(v) and bool(v) != (lab == "T"):
+                            continue  # infeasible edge for this platform
+                    preds.append(p)
+                ins: Optional[Set[str]] = None
+                for p in preds:
+                    if OUT.get(p) is None:
+                        continue
+                    ins = set(OUT[p]) if ins is None else ins & OUT[p]
+                if n is cfg.entry:
+                    ins = set()
+                if ins is None:
                     continue
-                ins = set(OUT[p]) if ins is None else ins & OUT[p]
-            if n is cfg.entry:
-                ins = set()
-            if ins is None:
-                continue
-            if gens[n] is NEVER_RETURNS:
-                continue  # the statement never completes normally
-            new = ins | gens[n]
-            if OUT[n] is None or new != OUT[n]:
-                OUT[n] = new
-                changed = True
-    res = OUT.get(cfg.exit)
-    if res is None:
+                if gens[n] is NEVER_RETURNS:
+                    continue  # the statement never completes normally
+                new = ins | gens[n]
+                if OUT[n] is None or new != OUT[n]:
+                    OUT[n] = new
+                    changed = True
+        return OUT.get(cfg.exit)
+
+    # case split on boolean locals that are bound once and tested more than once (`is_host = ...; if not is_host and ...:
+    # ...; if is_host:`): every path belongs to exactly one case, so the must-set is the intersection over the cases
+    from ..pathsem import _assigned_names
+
+    unstable = _assigned_names(f.node)
+    tested: Dict[str, int] = {}
+    for c in order:
+        if c.kind == "cond" and isinstance(c.ast, ast.Name) and c.ast.id not in unstable and c.ast.id not in f.params:
+            tested[c.ast.id] = tested.get(c.ast.id, 0) + 1
+    split = sorted(k for k, v in tested.items() if v >= 2)[:3]
+    res = None
+    any_case = False
+    import itertools as _it
+
+    for values in _it.product([True, False], repeat=len(split)):
+        r_case = solve(dict(zip(split, values)))
+        if r_case is None:
+            continue
+        any_case = True
+        res = set(r_case) if res is None else res & r_case
+    if not any_case or res is None:
         res = NEVER_RETURNS  # no normal path (under this platform): vacuous for the caller
     memo[key] = res
     return res
